@@ -330,9 +330,41 @@ def run_e2e(case, env):
         b = dst.open()
         b.bind(master.open())
     to_tags = dst.tags()
+    concurrent = None
+    if case.get("concurrent") and case["dst_kind"] == "bzr" and \
+            master is None and dstd:
+        # Another writer (its own Branch object) adds a tag to the destination
+        # just before merge_to takes its write lock: whatever merge_to read
+        # before locking is stale by then, and that tag must not be lost.
+        some_rev = sorted(dstd.values())[0]
+        tb = to_tags.branch
+        real_lock_write = tb.lock_write
+        state = {"done": False}
+
+        def lock_write_after_concurrent_writer(*a, **kw):
+            if not state["done"]:
+                state["done"] = True
+                dst.open().tags.set_tag("zz-concurrent", some_rev)
+            return real_lock_write(*a, **kw)
+        tb.lock_write = lock_write_after_concurrent_writer
+        concurrent = ("zz-concurrent", some_rev)
+        if "zz-concurrent" in srcd:
+            concurrent = None
+            tb.lock_write = real_lock_write
     res = src.tags().merge_to(to_tags, overwrite=case["overwrite"],
                               ignore_master=case["ignore_master"],
                               selector=sel)
+    if concurrent is not None:
+        tb.lock_write = real_lock_write
+        if not state["done"]:
+            concurrent = None        # this merge never locked that object
+    if concurrent is not None:
+        got_now = dst.open().tags.get_tag_dict()
+        check(got_now.get(concurrent[0]) == concurrent[1],
+              "C24/tag-written-by-another-writer-before-the-lock-was-lost",
+              [case, repr(sorted(got_now))])
+        dstd = dict(dstd)
+        dstd[concurrent[0]] = concurrent[1]
     check(isinstance(res, tuple) and len(res) == 2,
           "C24/merge_to-result-shape", [case, repr(res)])
     upd, conf = res
@@ -501,7 +533,8 @@ def gen_e2e(draw):
     return {"src_kind": src_kind, "dst_kind": dst_kind,
             "dst_template": dst_template, "src": src, "dst": dst,
             "master": master, "ignore_master": ignore_master,
-            "overwrite": draw(st.booleans()), "sel": _sel_for(draw, src)}
+            "overwrite": draw(st.booleans()), "sel": _sel_for(draw, src),
+            "concurrent": draw(st.sampled_from([False, False, True]))}
 
 
 def kinds(tier):
